@@ -384,6 +384,10 @@ fn main() {
         "c12" => c12(&mut r),
         "c06" => c06(&mut r),
         "c14" => c14(&mut r),
+        "c14_members" => c14_members(&mut r),
+        "c14_enum_fields" => c14_enum_fields(&mut r),
+        "c14_variants" => c14_variants(&mut r),
+        "c14_traits" => c14_traits(&mut r),
         _ => { eprintln!("usage: metamorphic c13|c12|c06"); std::process::exit(2); }
     }
     println!("{{\"suite\":\"{}\",\"cases\":{},\"both_expand\":{},\"failures\":{}}}", suite, r.cases, r.both_ok, r.fails.len());
